@@ -36,7 +36,7 @@ type FaultCase struct {
 	CleanData map[string]interface{} `json:"clean_data,omitempty"`
 }
 
-var wholeCallKinds = []string{"transport", "status500", "status404", "status302", "notjson", "notarray-object", "notarray-null", "array-shorter", "array-longer"}
+var wholeCallKinds = []string{"transport", "body-cut", "status500", "status404", "status302", "notjson", "notarray-object", "notarray-null", "array-shorter", "array-longer"}
 var elementKinds = []string{"elem-null", "elem-number", "errors-with-data", "errors-no-data", "data-missing", "data-null"}
 var nodeKinds = []string{"node-missing", "node-null", "node-string", "node-list", "node-number"}
 var shapeKinds = []string{"obj->list", "list->obj", "scalar-for-object", "list-entries-nonmaps", "null-for-list", "drop-id", "id-number", "id-object"}
@@ -44,7 +44,7 @@ var shapeKinds = []string{"obj->list", "list->obj", "scalar-for-object", "list-e
 // failureSignal: kinds for which the client's errors must be non-empty.
 func failureSignal(kind string) bool {
 	switch kind {
-	case "transport", "status500", "status404", "status302", "notjson", "notarray-object", "notarray-null", "array-shorter", "array-longer",
+	case "transport", "body-cut", "status500", "status404", "status302", "notjson", "notarray-object", "notarray-null", "array-shorter", "array-longer",
 		"errors-with-data", "errors-no-data", "data-missing", "node-missing", "node-string", "node-list", "node-number":
 		return true
 	}
@@ -121,6 +121,9 @@ func applyFault(f Fault, reqs []*fake.Received, normal []map[string]interface{})
 			key = reqs[0].Service
 		}
 		return &fake.FaultResponse{Err: fake.TransportError(key)}, true
+	case "body-cut":
+		b := marshal(normal)
+		return &fake.FaultResponse{Body: b, CutAfter: len(b)/2 + 1}, true
 	case "status500":
 		return &fake.FaultResponse{Status: 500, Body: marshal(normal)}, true
 	case "status404":
@@ -147,7 +150,9 @@ func applyFault(f Fault, reqs []*fake.Received, normal []map[string]interface{})
 	}
 	el, _ := elems[f.Pos].(map[string]interface{})
 	data, _ := el["data"].(map[string]interface{})
-	isNode := data != nil && len(data) == 1 && func() bool { _, ok := data["node"]; return ok }()
+	// the `node` of the statement is the gateway's own lookup (a child request), not a node(id:) root field of the client
+	isNode := data != nil && len(data) == 1 && func() bool { _, ok := data["node"]; return ok }() &&
+		f.Pos < len(reqs) && strings.Contains(reqs[f.Pos].Query, "node(id: $id)")
 	switch f.Kind {
 	case "elem-null":
 		elems[f.Pos] = nil
